@@ -67,3 +67,13 @@ Theorem C01_plan_sub : forall c root ss steps,
   plan c root ss = Ok steps -> incl (flat_map sfields steps) (flat_map ufields ss).
 Proof. exact plan_sub. Qed.
 Print Assumptions C01_plan_sub.
+
+(* "No field is ... taken from the wrong object, or attached to the wrong list element", for the step that attaches lookup
+   results to the objects of the merged tree (execution_result.go:71-109): every value the merge adds to an object comes
+   from a result item with that object's type name and that object's id - for every object, every list of result items. *)
+From V Require Import Model.MergeRes Proofs.MergeOrder Proofs.MergeAttach.
+Theorem C01_lookup_values_attached_by_type_and_id : forall m s m', boundary_apply m s = Ok m' -> forall k v, lookup k m' = Some v ->
+  lookup k m = Some v \/
+  exists r t i, In (RMap r) s /\ str_key tn r = Some t /\ str_key tn m = Some t /\ str_key idk r = Some i /\ str_key idk m = Some i /\ In (k, v) r.
+Proof. exact attached_by_type_and_id. Qed.
+Print Assumptions C01_lookup_values_attached_by_type_and_id.
